@@ -11,16 +11,18 @@ CellClause(cmd, exp, got) ==
     ELSE IF IsMV(exp) # IsMV(got) THEN "Mask"
     ELSE IF cmd \in FuzzyCmds /\ got[2] > 0 /\ (RLt(got, R(-1)) \/ RLt(R(1), got)) THEN "OutOfRange"
     ELSE IF exp # got THEN "Value" ELSE "ok"
-NodeClause(ns, k, got) ==
-    LET exp == Val(ns, k) IN
+NodeClause(exp, cmd, got) ==
     IF ~IsOk(got) THEN "Failed"
     ELSE IF Len(exp[2]) # Len(got[2]) THEN "Shape"
-    ELSE LET cs == {CellClause(ns[k][1], exp[2][j], got[2][j]) : j \in 1..Len(exp[2])} IN
+    ELSE LET cs == {CellClause(cmd, exp[2][j], got[2][j]) : j \in 1..Len(exp[2])} IN
          IF "Mask" \in cs THEN "Mask" ELSE IF "OutOfRange" \in cs THEN "OutOfRange" ELSE IF "Value" \in cs THEN "Value" ELSE "ok"
-Judge(t) == LET bad == {k \in 1..Len(t.nodes) : NodeClause(t.nodes, k, t.obs[k]) # "ok"} IN
-            IF bad = {} THEN <<"ok", 0>>
-            ELSE LET k == CHOOSE k \in bad : \A j \in bad : k <= j IN <<NodeClause(t.nodes, k, t.obs[k]), k>>
-TInit == tid \in 1..Len(Traces) /\ verdict = <<"pending", 0>> /\ nodes = <<>>
+\* t.obs is a sequence of runs of the same model (different textual orders); the graph is evaluated once
+Judge(t) == LET e == Eval(t.nodes, Len(t.nodes))
+                bad == {<<r, k>> \in (1..Len(t.obs)) \X (1..Len(t.nodes)) : NodeClause(e[k], t.nodes[k][1], t.obs[r][k]) # "ok"} IN
+            IF bad = {} THEN <<"ok", 0, 0>>
+            ELSE LET b == CHOOSE b \in bad : \A c \in bad : b[1] < c[1] \/ (b[1] = c[1] /\ b[2] <= c[2]) IN
+                 <<NodeClause(e[b[2]], t.nodes[b[2]][1], t.obs[b[1]][b[2]]), b[2], b[1]>>
+TInit == tid \in 1..Len(Traces) /\ verdict = <<"pending", 0, 0>> /\ nodes = <<>>
 TNext == verdict[1] = "pending" /\ verdict' = Judge(T) /\ UNCHANGED <<tid, nodes>>
-TReport == verdict[1] # "pending" => PrintT(<<"VERDICT", T.id, verdict[1], verdict[2]>>)
+TReport == verdict[1] # "pending" => PrintT(<<"VERDICT", T.id, verdict[1], verdict[2], verdict[3]>>)
 =============================================================================
